@@ -480,6 +480,61 @@ def r7_parts_own_their_cursor(rep, src):
         raise AnalysisError('C07.R7: fewer than two parts built')
 
 
+def r9_control_from_bytes(rep, src):
+    """"returns the same control fields" for ARBITRARY field values: the control file reaches the paragraph parser as the bytes of the member.
+    Handed over as decoded text it would be cut into lines by str.splitlines(), which also breaks at form feed, U+0085, U+2028 ... --
+    characters a value may hold -- while bytes are cut at line feeds only (the line notion of the deb822 classes, C02).  debcontrol()
+    interpreted (sa.heap) with the content query and the paragraph class as observers."""
+    from .. import heap as H
+    mod = src.mod(M)
+    for cname in ('DebControl', 'DebFile'):
+        f = mod.method(cname, 'debcontrol')
+        if f is None:
+            raise AnalysisError('%s:%s.debcontrol not found' % (M, cname))
+        rep.saw_func(f)
+        seen = {}
+
+        def content(it, a, k, seen=seen):
+            seen['query'] = (a[1] if len(a) > 1 else None, a[2] if len(a) > 2 else k.get('encoding'))
+            return ('content of', seen['query'][0], 'decoded with', seen['query'][1])
+
+        def parse(it, a, k, seen=seen):
+            seen['parsed'] = a[0] if a else None
+            return it.h.alloc('Deb822', {})
+        heap = H.Heap(mod, hooks={'.get_content': content, 'Deb822': parse, 'deb822.Deb822': parse})
+        me = heap.alloc(cname, {}, name='@deb')
+        if cname == 'DebFile':
+            ctl = heap.alloc('DebControl', {}, name='@control')
+            heap.hooks['.debcontrol'] = lambda it, a, k: it.call(H.Closure(mod.method('DebControl', 'debcontrol').node, {}, a[0], 'DebControl'), []) \
+                if it.h.objs[a[0].name]['__class__'] == 'DebControl' else None
+            heap.objs[me.name]['_DebFile__parts'] = None
+            heap.hooks['.control'] = lambda it, a, k: ctl
+        it = H.Interp(heap)
+        what = '%s.debcontrol parses the bytes of the control member' % cname
+        try:
+            if cname == 'DebFile':
+                # (the accessor `control` is a property: answered by the scenario)
+                orig = it.ev
+
+                def ev(e, env, cls, orig=orig, ctl=ctl):
+                    if isinstance(e, ast.Attribute) and e.attr == 'control' and norm(e.value) == 'self':
+                        return ctl
+                    return orig(e, env, cls)
+                it.ev = ev
+            it.call(H.Closure(f.node, {}, me, f.cls), [])
+        except H.Raised as x:
+            rep.fail('C07.R9', f.site, what, 'raises %s (line %d)' % (x.exc, x.lineno), where=f.where)
+            continue
+        q, p_ = seen.get('query'), seen.get('parsed')
+        if q is None or p_ is None:
+            rep.fail('C07.R9', f.site, what, 'the control member is not read through get_content() and parsed as a paragraph (query %r, parsed %r)' % (q, p_), where=f.where)
+        elif q[1] is not None or p_ != ('content of', q[0], 'decoded with', None):
+            rep.fail('C07.R9', f.site, what, 'the control file is decoded (encoding=%r) before it is parsed: text is cut into lines at form feed, U+0085, U+2028 ... as well, so a field '
+                     'value that holds such a character followed by a blank comes back with a line feed in its place -- bytes are cut at line feeds only' % (q[1],), where=f.where)
+        else:
+            rep.ok('C07.R9', f.site, what, 'get_content(%r) without decoding, handed to the paragraph class as it is' % (q[0],))
+
+
 def check(src, rep, tier):
     rep.explanation = ('C07: (R1) the member-name normaliser is read as a prefix table and must strip exactly "./" or "/" once (character-set '
                        'stripping is rejected); in has_file/get_file the normaliser call dominates every use of the name and both use the lookup '
@@ -504,6 +559,8 @@ def check(src, rep, tier):
     rep.guard('C07.R7', r7_parts_own_their_cursor, src)
     # the content queries answer from the package: each call builds its answer anew (a remembered paragraph or dictionary that a caller
     # has edited would be what the next call returns -- not the packed fields); the opened tar reader of a part is the one cache by design
+    rep.need('C07.R9', 2)
+    rep.guard('C07.R9', r9_control_from_bytes, src)
     from . import common
     rep.need('C07.R8', 6)
     rep.guard('C07.R8', common.check_no_hidden_state, src, 'C07.R8',
